@@ -86,6 +86,8 @@ theorem search_spec (off : Int → Int) (o T D H s : Int)
 
 theorem skipSearch_steps : ∀ d ∈ skipSearch, 0 < d ∧ d ≤ maxStep := by decide
 theorem skipSearch_last : skipSearch.getLast? = some 1 := by decide
+theorem skipSearch_head : skipSearch = maxStep :: skipSearch.tail := by decide
+theorem maxStep_pos : 0 < maxStep := by decide
 
 /-- a constant offset up to the horizon: the first round runs into the overflow and breaks at a
     probe within one step of the horizon -/
@@ -114,17 +116,18 @@ theorem loop_const (off : Int → Int) (o d H : Int) (hd : 0 < d) :
 theorem search_const (off : Int → Int) (o H e : Int) (hc : ∀ t, e < t → t ≤ H → off t = o)
     (h2 : e + maxStep ≤ H) :
     ∃ p, search off o H skipSearch e = .brk p ∧ H < p + maxStep := by
+  have hpos := maxStep_pos
   have hfuel : H - e ≤ (((H - e).toNat + 1 : Nat) : Int) * maxStep := by
     have h1 : ((((H - e).toNat + 1 : Nat)) : Int) = (H - e) + 1 := by
-      rw [Int.natCast_add, Int.toNat_of_nonneg (by unfold maxStep at h2; omega)]; simp
+      rw [Int.natCast_add, Int.toNat_of_nonneg (by omega)]; simp
     rw [h1]
     have : (H - e + 1) * 1 ≤ (H - e + 1) * maxStep :=
-      Int.mul_le_mul_of_nonneg_left (by decide) (by unfold maxStep at h2; omega)
+      Int.mul_le_mul_of_nonneg_left (by omega) (by omega)
     omega
-  obtain ⟨p, hp, _, _, h6⟩ := loop_const off o maxStep H (by decide) _ e hc h2 hfuel
+  obtain ⟨p, hp, _, _, h6⟩ := loop_const off o maxStep H hpos _ e hc h2 hfuel
   refine ⟨p, ?_, h6⟩
   have hno : ¬ (e + maxStep > H) := by omega
-  show search off o H (maxStep :: _) e = _
+  rw [skipSearch_head]
   simp only [search, pass, hno, if_false, hp]
 
 /-! ## the outer loop along a chain of visible changes -/
